@@ -84,23 +84,57 @@ def complete(d):
     return all(os.path.exists(os.path.join(d, c + ".json")) for c in CRATES)
 
 
+NSLOTS = 4          # independent cargo target directories: extractions of different trees run in parallel
+KEEP_SETS = 24      # cached fact sets (about 22 MB each)
+
+
+def _lock(path, blocking=True):
+    fh = open(path, "w")
+    try:
+        fcntl.flock(fh, fcntl.LOCK_EX | (0 if blocking else fcntl.LOCK_NB))
+    except OSError:
+        fh.close()
+        return None
+    return fh
+
+
+def _unlock(fh):
+    fcntl.flock(fh, fcntl.LOCK_UN)
+    fh.close()
+
+
 def ensure_facts(verbose=True):
     """Returns (facts_dir, tree_hash, nfiles, seconds_spent_extracting)."""
-    os.makedirs(CACHE, exist_ok=True)
-    lock = open(os.path.join(CACHE, "lock"), "w")
-    fcntl.flock(lock, fcntl.LOCK_EX)
+    os.makedirs(os.path.join(CACHE, "locks"), exist_ok=True)
+    os.makedirs(os.path.join(CACHE, "facts"), exist_ok=True)
+    g = _lock(os.path.join(CACHE, "lock"))
     try:
         build_driver()
-        th, nfiles = tree_hash()
-        d = os.path.join(CACHE, "facts", th)
+    finally:
+        _unlock(g)
+    th, nfiles = tree_hash()
+    d = os.path.join(CACHE, "facts", th)
+    if complete(d):
+        os.utime(d, None)
+        return d, th, nfiles, 0.0
+    hl = _lock(os.path.join(CACHE, "locks", th + ".lock"))   # one extraction per tree
+    slot = None
+    try:
         if complete(d):
             os.utime(d, None)
             return d, th, nfiles, 0.0
         t0 = time.time()
-        if os.path.isdir(d):
-            shutil.rmtree(d)
-        os.makedirs(d)
-        target = os.path.join(CACHE, "target")
+        for i in range(NSLOTS):
+            slot = _lock(os.path.join(CACHE, "locks", "target-%d.lock" % i), blocking=False)
+            if slot is not None:
+                break
+        if slot is None:
+            i = int(th[:4], 16) % NSLOTS
+            slot = _lock(os.path.join(CACHE, "locks", "target-%d.lock" % i))
+        target = os.path.join(CACHE, "target" if i == 0 else "target-%d" % i)
+        tmp = d + ".tmp.%d" % os.getpid()
+        shutil.rmtree(tmp, ignore_errors=True)
+        os.makedirs(tmp)
         # cargo's freshness cache would otherwise skip the wrapper silently
         for fp in glob.glob(os.path.join(target, "debug", ".fingerprint", "zksync_*")):
             shutil.rmtree(fp, ignore_errors=True)
@@ -109,7 +143,7 @@ def ensure_facts(verbose=True):
             "LD_LIBRARY_PATH": os.path.join(sysroot(), "lib"),
             "RUSTFLAGS": "-Zmir-opt-level=0 -Awarnings",
             "RUSTC_WORKSPACE_WRAPPER": DRIVER,
-            "VP_FACTS_DIR": d,
+            "VP_FACTS_DIR": tmp,
             "VP_TREE_HASH": th,
             "CARGO_TARGET_DIR": target,
             "CARGO_NET_OFFLINE": "true",
@@ -119,22 +153,27 @@ def ensure_facts(verbose=True):
         })
         cmd = ["cargo", "+nightly", "check", "--offline", "--locked", "--workspace", "--exclude", "zksync_consensus_tools"]
         r = subprocess.run(cmd, cwd=NODE, env=env, stdout=subprocess.PIPE, stderr=subprocess.STDOUT, text=True)
-        if r.returncode != 0 or not complete(d):
+        if r.returncode != 0 or not complete(tmp):
             tail = "\n".join(r.stdout.splitlines()[-40:])
-            shutil.rmtree(d, ignore_errors=True)
+            shutil.rmtree(tmp, ignore_errors=True)
             raise RuntimeError("ANALYSIS-ERROR: the tree does not compile under the driver (exit %d)\n%s" % (r.returncode, tail))
         for c in CRATES:
-            fp = os.path.join(d, c + ".json")
+            fp = os.path.join(tmp, c + ".json")
             with open(fp) as fh:
                 txt = fh.read()
             with open(fp, "w") as fh:
                 fh.write(normalize_text(txt))
-        # keep the cache small: the 4 most recently used fact sets
+        shutil.rmtree(d, ignore_errors=True)
+        os.rename(tmp, d)
+        # keep the cache small: the most recently used fact sets; never one used in the last 10 minutes
         root = os.path.join(CACHE, "facts")
-        ds = sorted((os.path.getmtime(os.path.join(root, x)), x) for x in os.listdir(root))
-        for _, x in ds[:-4]:
-            shutil.rmtree(os.path.join(root, x), ignore_errors=True)
+        ds = sorted((os.path.getmtime(os.path.join(root, x)), x) for x in os.listdir(root) if ".tmp." not in x)
+        now = time.time()
+        for mt, x in ds[:-KEEP_SETS]:
+            if now - mt > 600:
+                shutil.rmtree(os.path.join(root, x), ignore_errors=True)
         return d, th, nfiles, time.time() - t0
     finally:
-        fcntl.flock(lock, fcntl.LOCK_UN)
-        lock.close()
+        if slot is not None:
+            _unlock(slot)
+        _unlock(hl)
